@@ -49,6 +49,7 @@ def run(ck, ctx):
     ck.rule("R15.11", _bounds.TEXT % "the RESP decoders and the connection's hand-written GET/SET recognisers")
     ck.nd("prefix-stability and encode/decode identity for all values (needs execution or proof)")
     ck.assume("a dominating comparison against the input length is taken as a bound (its strength is not proven)")
+    ck.rule("R15.13", INCOMPLETE_TEXT)
     for cfg in ctx.configs:
         prog = ctx.prog(cfg)
         ck.configs.append(cfg)
@@ -63,6 +64,7 @@ def run(ck, ctx):
         _r158(ck, prog, cfg)
         _r1510(ck, prog, cfg)
         _r1512(ck, prog, cfg)
+        incomplete_rule(ck, prog, cfg, "R15.13")
         _bounds.rule(ck, prog, cfg, "R15.11", ("src/redis/resp.rs", "src/redis/resp_optimized.rs", "src/production/connection_optimized.rs"),
                      "a frame that is split by the network right there (or a malformed one)", floor=12, tag=_tag(cfg))
     _r156(ck, ctx)
@@ -814,3 +816,64 @@ def _r1510(ck, prog, cfg):
                      "decode back to the value that was emitted" % (ename, var, bad[0][1] if bad else "", MARKER[var]),
                      e.where(bad[0][0]["ln"] if bad else None), detail="first byte `%s` on %d path(s)" % (MARKER[var], len(firsts)))
     ck.floor("R15.10" + _tag(cfg), n, 10)
+
+
+# ------------------------------------------------------------------------------------------------
+INCOMPLETE_TEXT = ("a complete frame is never called incomplete: in the RESP decoders every construction of the `Incomplete` sentinel is decided "
+                   "by a missing terminator (find_crlf found none), by an exact position (an offset / start + declared length, sums only) "
+                   "running past the bytes present, or by emptiness of the input - never by an estimate such as count * minimum-element-size "
+                   "(a frame of short elements would wait for bytes that never come, and its reply with it)")
+ARITH_CALLS = r"(saturating|checked|wrapping|overflowing)_(add|sub|mul)$|<usize as std::cmp::Ord>::(min|max)$|Try>::branch$|unwrap_or$|Option::<usize>::unwrap$"
+
+
+def _has_product(f, operand, depth=0, seen=None):
+    """does the backward slice of `operand` (through arithmetic only) contain a multiplication / shift / division?"""
+    if depth > 8:
+        return False
+    s_ = src_of_operand(f, operand, through_calls=(r"Try>::branch$",))
+    if s_.kind == "rv" and s_.rv["k"] == "bin":
+        if re.match(r"Mul|Shl|Div|Shr", s_.rv["op"]):
+            return True
+        return _has_product(f, s_.rv["a"], depth + 1) or _has_product(f, s_.rv["b"], depth + 1)
+    if s_.kind == "rv" and s_.rv["k"] in ("cast", "un") and "a" in s_.rv:
+        return _has_product(f, s_.rv["a"], depth + 1)
+    if s_.kind == "call":
+        nm = callee(s_.term) or ""
+        if re.search(r"_(mul|pow|shl|div)$|::pow$", nm):
+            return True
+        if re.search(ARITH_CALLS, nm):
+            return any(_has_product(f, a, depth + 1) for a in s_.term["args"])
+    return False
+
+
+def incomplete_rule(ck, prog, cfg, rid):
+    n = 0
+    for f in prog.lib_fns():
+        if f.file not in ("src/redis/resp.rs", "src/redis/resp_optimized.rs") or "::tests::" in f.id or "test" in f.short:
+            continue
+        k = 0
+        for b, t in f.calls():
+            # "Incomplete".to_string() / String::from("Incomplete") / .into(): the literal sits in the block as a const (directly or via a local)
+            if not is_callee(t, r"ToString>::to_string$", r"From<&str>>::from$", r"Into<.*>>::into$", r"ToOwned>::to_owned$", r"str::to_owned$"):
+                continue
+            txt = " ".join(str(a.get("pv") or a.get("c") or "") for a in t["args"]) + " " + \
+                " ".join(str(st["rv"].get("a", {}).get("c", "")) + str(st["rv"].get("a", {}).get("pv", "")) for st in f.blocks[b]["st"] if st["rv"]["k"] == "use")
+            if "Incomplete" not in txt:
+                continue
+            n += 1
+            bad = None
+            for sb, _ in lib2.controlling_switches(f, b):
+                si = switch_info(f, sb)
+                if not si or si["kind"] != "val" or si["src"] is None or si["src"].kind != "rv" or si["src"].rv["k"] != "bin":
+                    continue
+                r = si["src"].rv
+                if _has_product(f, r["a"]) or _has_product(f, r["b"]):
+                    bad = f.term(sb)["ln"]
+            key = "%s:incomplete#%d%s" % (f.short if f.kind != "closure" else (f.parent or "").rsplit("::", 1)[-1] + "::{closure}", k, _tag(cfg))
+            k += 1
+            ck.check(bad is None, rid, key,
+                     "this `Incomplete` answer is decided by a comparison (line %s) over a product/quotient of a wire-derived count - an estimate, "
+                     "not the position of a missing byte: a complete frame whose elements are shorter than the estimate assumes is reported as "
+                     "incomplete, so the connection waits for more input and the command's reply never comes" % bad, f.where(t["ln"]),
+                     detail="decided by terminator / exact position")
+    ck.floor(rid + _tag(cfg), n, 8)
